@@ -370,13 +370,16 @@ def concat (trees : List (List (List (List K)))) : Except Err (List (List (List 
       let r := ts.foldl (List.zipWith (· ++ ·)) t
       if r.all (fun leaf => allSame (leaf.map List.length)) then .ok r else .error .shape
 
-/-- `split_axis(tree, axis, keep_dims=True)`: one tree per index along the axis -/
+/-- `split_axis(tree, axis, keep_dims=True)`: one tree per index along the axis.
+ `len(set(a.shape[axis] for a in arrays)) != 1` = no leaf, or two leaves of different size -/
 def splitAxis (leaves : List (List (List K))) : Except Err (List (List (List (List K)))) :=
-  match (leaves.map List.length).eraseDups with
-  | [n] =>
-    if n = 0 then .error .zerodiv
-    else .ok ((List.range n).map (fun i => leaves.map (fun l => slice l i (i + 1))))
-  | _ => .error .value
+  match leaves.map List.length with
+  | [] => .error .value
+  | n :: rest =>
+    if rest.all (· == n) then
+      if n = 0 then .error .zerodiv
+      else .ok ((List.range n).map (fun i => leaves.map (fun l => slice l i (i + 1))))
+    else .error .value
 
 /-- `split_axis(tree, axis, keep_dims=False)`: the singleton axis squeezed away -/
 def splitAxisSqueeze (leaves : List (List (List K))) : Except Err (List (List (List K))) :=
@@ -425,10 +428,14 @@ def interpolateFn [Zero K] (c1 c2 : Horiz) (sameVertical expectSame : Bool) (x :
   else if c1.L ≥ c2.L ∧ c1.M ≥ c2.M then (downsampleFn c1 c2 sameVertical expectSame x).map (false, ·)
   else .error .value
 
-/-- the value of a series with coefficients `x` in a family of basis functions `b i j` -/
+/-- one row of the series: `Σ_j r[j] * b i j` -/
+def rowSum [Add K] [Mul K] [Zero K] (b : Nat → Nat → K) (i : Nat) (r : List K) : K :=
+  (r.zipIdx.map (fun cj => cj.1 * b i cj.2)).foldr (· + ·) 0
+
+/-- the value `Σ_i Σ_j x[i][j] * b i j` of a series with coefficients `x` in a family of basis
+ functions `b i j` that does not depend on the truncation (prefix stability) -/
 def series [Add K] [Mul K] [Zero K] (b : Nat → Nat → K) (x : List (List K)) : K :=
-  let rowSum (i : Nat) (r : List K) : K := (r.zipIdx.map (fun cj => cj.1 * b i cj.2)).foldr (· + ·) 0
-  (x.zipIdx.map (fun ri => rowSum ri.2 ri.1)).foldr (· + ·) 0
+  (x.zipIdx.map (fun ri => rowSum b ri.2 ri.1)).foldr (· + ·) 0
 
 end Spectral
 
